@@ -97,7 +97,7 @@ pub fn cp_events(rec: &mut Rec, r: &mut StdRng, run: u64, n: usize) {
         if res == "ok" && r.gen_bool(0.5) {
             // there and straight back, reserves after the first swap by conservation
             let (ret, pf, bf) = (num(&out, "ret"), num(&out, "pf"), num(&out, "bf"));
-            let op2 = ak - ret - pf - bf;
+            let op2 = ak.checked_sub(ret).and_then(|x| x.checked_sub(pf)).and_then(|x| x.checked_sub(bf)).unwrap_or(0);
             let ak2 = op.checked_add(off);
             if let (Some(ak2), true) = (ak2, ret > 0 && op2 > 0) {
                 let (res2, out2) = cp_call(op2, ak2, ret, f, [dec[1], dec[0]]);
